@@ -502,7 +502,7 @@ Section Protocol.
     - exists E. split; [exact Hsc|]. split; [|split; [|exact H6]].
       + rewrite map_app, concat_app. cbn [map concat app]. rewrite app_nil_r.
         eapply Permutation_trans; [exact Hc|]. fold (buffered (s_wk s)). perm_ac.
-      + intros k. specialize (Ht k). fold r in Ht. rewrite Hcb in Ht. rewrite Ht.
+      + intros k. fold r. specialize (Ht k). fold r in Ht. rewrite Hcb in Ht. rewrite Ht.
         destruct (Nat.eqb k r) eqn:E1.
         * apply Nat.eqb_eq in E1. subst k.
           assert (Nat.eqb r (r + 1) = false) as -> by (apply Nat.eqb_neq; lia).
@@ -517,7 +517,7 @@ Section Protocol.
              assert (Nat.ltb k (r + 1) = false) as -> by (apply Nat.ltb_ge; lia).
              destruct (Nat.eqb k (r + 1)); lia.
     - (* the new round is exactly the contigs the script intends for it *)
-      replace (r + 1)%nat with (S r) by lia. rewrite seq_S. cbn [plus].
+      fold r. replace (r + 1)%nat with (S r) by lia. rewrite seq_S. cbn [plus].
       apply Forall2_app; [exact Hr|]. constructor; [|constructor].
       fold (buffered (s_wk s)).
       unfold expected_round. rewrite Hsc, tasks_of_app, filter_app.
